@@ -95,6 +95,20 @@ Theorem C17_wsout_buffered_refuted :
 Proof. exact wsout_buffered_glues_across_drop. Qed.
 Print Assumptions C17_wsout_buffered_refuted.
 
+(* ---- the destination direction with a destination that ends the session and is dialled again (rwc client ->
+   RelayOut -> reconws): for every schedule - offers, drops while the queue of capacity dcap is full, sends,
+   writes that fail at a cut - what the destination receives over ALL its connections is a sub-sequence of
+   the hub messages of the stream in their order: unmodified, strictly forward, none twice.  (The sibling of
+   C17_reads_are_handed_frames for the reconnecting destination; losses at a cut are allowed, a message that
+   was taken for a failed write is never sent later.) *)
+Theorem C17_destination_receives_in_order :
+  forall msg_at dcap evs,
+    let s := drun msg_at dcap evs in
+    (exists hi, chain 0 (map fst (dout s)) hi /\ hi <= dnext s) /\
+    Forall (fun p => snd p = msg_at (fst p)) (dout s).
+Proof. exact destination_receives_in_order. Qed.
+Print Assumptions C17_destination_receives_in_order.
+
 (* ---- the tree before repair F10: message 1 is read after flush 2 and shows frame 2's bytes
    (replayed on the real code by harness/cmd/c17: post AAA, pause, BBB; the queued message reads BBB) *)
 Theorem C17_content_stable_pinned_refuted :
